@@ -27,6 +27,9 @@ RULE = ("case 'bad' = (well-formed DBC or SYM text: canmatrix's own output for a
         "(every kind equally often) cut at any length - inside a quoted text that stays open, a bracket, a number, a name, the keyword - "
         "and inserted as a line of its own, half of the time directly in front of a statement; SYM: Var=/Mux=/ID=/DLC=/CycleTime= lines "
         "cut before their first number is complete (thorough: every truncation of every statement of three DBC texts). "
+        "Large multisets (one text in three): 7..105 malformed lines, one to three distinct ones (of one fault kind, of any, or cut from the "
+        "file's own statements) repeated - all in one run at one position, in two or three runs, or one in front of each of that many "
+        "statements; judged like every other 'bad' case (DBC and SYM). "
         "Non-trivial = every distinct case.")
 EXHAUSTIVE = {"quick": False, "thorough": False}
 PARTIAL = ["theorems: a bad line is a no-op of the abstract reader (Props/C20) and of the model of the whole reader where it is skipped, "
@@ -202,6 +205,104 @@ def allowed_positions_sym(lines):
     return ok
 
 
+def kind_at(b0, p, lines, m, ms):
+    """(line, expectation) of the malformed line made from the template b0 when it is inserted at position p, None when it is not
+    inserted there: the placement rules of the first stream of _gen_base, as a function of the position"""
+    kind = "unknown" if b0 in UNKNOWN_DBC else "trunc" if b0 in TRUNC_DBC else "wrong"
+    if b0 in RAISES:
+        kind = "raises"
+    if b0 in MATCHOK:
+        kind = "matchok"
+    b = b0
+    if "{fid}" in b:
+        if not (m and ms):
+            return None
+        b = b.replace("{fid}", m.group(1)).replace("{sig}", ms.group(1))
+        if b.startswith("BA_ "):
+            kind = "wrongvalue:" + b.split('"')[1]
+    first_bo = [n for n, l in enumerate(lines) if m and l.startswith("BO_ %s " % m.group(1))]
+    if m and (m.group(1) + " ") in b and not b.startswith("BO_"):
+        # a line naming the first frame must come after that frame's definition to reach its handler
+        if not first_bo or p <= first_bo[0] + 1:
+            return None
+    if kind.startswith("wrongvalue:"):
+        attr = kind.split(":")[1]
+        defline = [n for n, l in enumerate(lines) if re.match(r'^BA_DEF_ \w+ +"%s" (INT|HEX|FLOAT)' % attr, l)]
+        if not defline or not first_bo or p <= first_bo[0] + 1:
+            return None
+        # before the definition has been read the value is stored and dropped by the post-processing, after it the line raises
+        kind = "wrongvalue" if p > defline[0] else "matchok"
+    return b, kind
+
+
+RUN_LENGTHS = (7, 10, 16, 20, 25, 32, 50, 64, 100)
+
+
+def gen_many(rng, fmt, lines, pos, m, ms):
+    """a large multiset of insertions (7 .. 105 malformed lines, where the first stream has 1 .. 6): a few distinct malformed lines
+    (one to three: templates of one fault kind or of any, or statements of the file cut short), repeated
+      'run'    all directly one after another at one position,
+      'runs'   in two or three such groups at different positions,
+      'spread' one at each of that many different positions (in front of every statement when the file has no more).
+    A reader that counts the lines it skipped, keeps anything from one skipped line to the next, or changes its mind after some number
+    of them, shows only here.  Returns the list of [position, line, kind] or None."""
+    n = rng.choice(RUN_LENGTHS) + rng.randint(0, 5)
+    shape = rng.choice(("run", "run", "runs", "spread"))
+    if shape == "run":
+        places = [rng.choice(pos)] * n
+    elif shape == "runs":
+        ps = [rng.choice(pos) for _ in range(rng.randint(2, 3))]
+        places = sorted(rng.choice(ps) for _ in range(n))
+    else:
+        places = sorted(rng.sample(pos, min(len(pos), n)))
+    k = rng.choice((1, 1, 2, 3))
+    pool = []
+    if fmt == "dbc":
+        source = rng.choice(("unknown", "trunc", "wrong", "any", "file"))
+        stmts = statements_dbc(lines) if source == "file" else []
+        for _ in range(k):
+            if stmts:
+                st = rng.choice(stmts)
+                ks = truncation_points_dbc(st)
+                if ks and st[:ks[0]].strip():
+                    pool.append(("text", st[:pick_cut(rng, st, ks)]))
+            else:
+                pool.append(("template", rng.choice({"unknown": UNKNOWN_DBC, "trunc": TRUNC_DBC, "wrong": WRONG_DBC,
+                                                     "file": TRUNC_DBC, "any": UNKNOWN_DBC + TRUNC_DBC + WRONG_DBC}[source])))
+    else:
+        source = rng.choice(("unknown", "bad", "any", "file"))
+        stmts = [(l, truncations_sym(l)) for l in lines if truncations_sym(l)] if source == "file" else []
+        for _ in range(k):
+            if stmts:
+                st, (lo, hi, least) = rng.choice(stmts)
+                c = rng.randint(lo, hi)
+                pool.append((st[:c], "bad" if c >= least else "unknown"))
+            else:
+                b = rng.choice({"unknown": UNKNOWN_SYM, "bad": BAD_SYM, "file": BAD_SYM, "any": UNKNOWN_SYM + BAD_SYM}[source])
+                pool.append((b, "unknown" if b in UNKNOWN_SYM else "bad"))
+    if not pool:
+        return None
+    bads, expectation = [], {}
+    for i, p in enumerate(places):
+        how, b = pool[i % len(pool)] if rng.random() < 0.7 else rng.choice(pool)
+        if fmt == "dbc":
+            if how == "text":
+                if not b.strip():
+                    continue
+                kind = "trunc"
+            else:
+                bk = kind_at(b, p, lines, m, ms)
+                if bk is None:
+                    continue
+                b, kind = bk
+            if expectation.setdefault(b.strip(), kind) != kind:
+                continue          # printed errors are attributed by the echoed text: one expectation per text
+        else:
+            b, kind = how, b
+        bads.append([p, b, kind])
+    return (shape, bads) if len(bads) >= 7 else None
+
+
 def gen_text(rng, fmt):
     s = samples()[fmt]
     if s and rng.random() < 0.3:
@@ -350,6 +451,11 @@ def _gen_base(rng, tier, shard, nshards):
                         bads.append([rng.choice(pos), b, "bad" if k >= least else "unknown"])
             if bads:
                 yield {"op": "bad", "c": {"fmt": fmt, "text": text, "ins": bads, "bad": [b for _, b, _ in bads]}}
+            if rng.random() < 0.35:
+                # all multisets of insertions: also the large ones (runs of malformed lines, a malformed line in front of every statement)
+                many = gen_many(rng, fmt, lines, pos, m, ms)
+                if many:
+                    yield {"op": "bad", "c": {"fmt": fmt, "text": text, "ins": many[1], "bad": [b for _, b, _ in many[1]], "many": many[0]}}
         else:
             n = len(text)
             ks = {rng.randrange(n + 1) for _ in range(25)} | {0, n}
@@ -544,6 +650,9 @@ def project(impl):
 def features(case, impl):
     yield "op=%s/%s%s" % (case["op"], case["c"]["fmt"], "/utf-8" if case["c"].get("enc") else "")
     if case["op"] == "bad":
+        if case["c"].get("many"):
+            n = len(case["c"]["ins"])
+            yield "many=%s/%s/%s" % (case["c"]["many"], case["c"]["fmt"], "7..24" if n < 25 else "25..49" if n < 50 else "50..")
         for _, b, kind in case["c"]["ins"]:
             yield "fault=" + kind
             if b.count('"') % 2 == 1:
